@@ -76,6 +76,13 @@ func (o *SortedMap) Less(i, j int) (r bool)
   modifies nothing
   may-panic
 
+-- the entries stay pairs: Swap exchanges the keys AND the values at the two positions and nothing else
+func (o *SortedMap) Swap(i, j int)
+  requires 0 <= i && i < len(o.Key) && 0 <= j && j < len(o.Key) && len(o.Key) == len(o.Value) && ref(o.Key) != ref(o.Value)
+  modifies memU
+  ensures [C05,C06,C12,C17] o.Key[i] == old(o.Key[j]) && o.Key[j] == old(o.Key[i]) && o.Value[i] == old(o.Value[j]) && o.Value[j] == old(o.Value[i])
+  ensures [C05,C06,C12,C17] forall k :: 0 <= k && k < len(o.Key) && k != i && k != j ==> o.Key[k] == old(o.Key[k]) && o.Value[k] == old(o.Value[k])
+
 func (o *SortedMap) Len() (n int)
   modifies nothing
   ensures n == len(o.Key)
